@@ -365,12 +365,20 @@ def fuzz(acc, target, fn, runs, nproc=None, max_len=64, corpus_seeds=()):
     import subprocess
 
     nproc = nproc or NPROC
+    sys.path.append(os.path.join(ROOT, ".deps"))
     try:
-        sys.path.append(os.path.join(ROOT, ".deps"))
         import atheris  # noqa: F401
     except ImportError:
-        acc.note(f"atheris_{target}", "skipped: atheris not importable")
-        return
+        # fresh restore: install from the offline wheelhouse into .deps (what setup_cmd does)
+        subprocess.run(["sh", os.path.join(ROOT, "tools", "setup.sh")], capture_output=True, check=False, timeout=600)
+        import importlib
+
+        importlib.invalidate_caches()
+        try:
+            import atheris  # noqa: F401
+        except ImportError:
+            acc.note(f"atheris_{target}", "skipped: atheris not importable")
+            return
     procs = []
     for i in range(nproc):
         out = fresh_dir(f"fuzz-{target}-{i}")
